@@ -314,8 +314,11 @@ class Gen(object):
             # ... possibly on its connection to the other broker (fail-over)
             addr = [a for a in self.addrs if a != addr][0]
         if what == "publish":
-            return {"op": "app.call", "addr": addr, "m": "publish",
-                    "k": {"topic": gen_topic(rng), "message": "rx", "qos": rng.randint(0, 2)}, "when": when}
+            st = {"op": "app.call", "addr": addr, "m": "publish",
+                  "k": {"topic": gen_topic(rng), "message": "rx", "qos": rng.randint(0, 2)}, "when": when}
+            if rng.random() < 0.12:
+                st["chain"] = True     # the callback returns the new call's Deferred (Deferred chaining)
+            return st
         if what == "subscribe":
             return {"op": "app.call", "addr": addr, "m": "subscribe", "a": [gen_topic(rng, True), rng.randint(0, 2)], "when": when}
         if what == "unsubscribe":
@@ -848,11 +851,11 @@ class Gen(object):
             return {"op": "app.call", "addr": addr, "m": "setBandwith", "a": a, "tag": "bad"}
         if choice == "pub_qos":
             return {"op": "app.call", "addr": addr, "m": "publish", "tag": "bad",
-                    "k": {"topic": "t", "message": "m", "qos": rng.choice([3, -1, 4, 255])}}
+                    "k": {"topic": "t", "message": "m", "qos": rng.choice([3, -1, 4, 255, 2.5, -0.5, 1.5, "1", "2"])}}
         if choice == "pub_payload":
             return {"op": "app.call", "addr": addr, "m": "publish", "tag": "bad",
                     "k": {"topic": "t", "message": rng.choice([5, 1.5, {"$": "none"}, {"$": "obj"}, ["l"], {"$": "bytes", "v": "00"}, True]),
-                          "qos": rng.randint(0, 2)}}
+                          "qos": rng.randint(0, 2), "retain": rng.random() < 0.5}}
         if choice == "pub_topic":
             return {"op": "app.call", "addr": addr, "m": "publish", "tag": "bad",
                     "k": {"topic": rng.choice([long_s, long3]), "message": "m", "qos": rng.randint(0, 2)}}
